@@ -1,7 +1,7 @@
 """
 C06 - tract parsing is compositional: lots, divisions, acreages and aliquots.
 
-All sequences (length 2..3, thorough 4) over 26 element kinds x 5 separators x 6 configurations on
+All sequences (length 2..3, thorough 4) over 28 element kinds x 5 separators x 6 configurations on
 the real Tract parser.  Each element is generated from an abstract spec, so lots / divisions /
 acreages have computed expectations; aliquots use the differential oracle "what the element yields
 on its own under the same configuration" (the tiling itself is C02's subject).
@@ -15,7 +15,7 @@ ID = 'C06'
 LEVEL = 'model_checking'
 TECHNIQUE = ('bounded exhaustive enumeration of element sequences x separators x configurations on the real Tract parser; '
              'spec-derived expectations for lots/divisions/acreages, per-element differential oracle for aliquots')
-LEVEL_TEXT = ('Every sequence of 2-3 (thorough 4) elements from 26 kinds (single lot, range, and-list, () and [] acreage, second acreage '
+LEVEL_TEXT = ('Every sequence of 2-3 (thorough 4) elements from 28 kinds (single lot, range, and-list, () and [] acreage, second acreage '
               'for the same lot, divisions with and without "of", division over a range whose through-word is followed by "Lot", '
               'division that must stop at the second "Lot" word, three aliquot chains, ALL, repeated lot) x 9 separators (comma / semicolon / line break, with and without blanks) '
               ' x 6 configurations. Interference between neighbouring elements (fusion across a separator, lost ALL, acreage '
@@ -44,6 +44,8 @@ ELEMS = [
     ('W/2 of Lot 15 and Lot 16', [(15, 'W2'), (16, None)], {}, False),
     ('Lots 17, 19', [(17, None), (19, None)], {}, False),
     ('Lots 98 - 101', [(98, None), (99, None), (100, None), (101, None)], {}, False),    # ends with different digit counts
+    ('Lots 31(39.80) - 33', [(31, None), (32, None), (33, None)], {31: '39.80'}, False),     # acreage on the first lot of a range
+    ('Lot 41 [39.80] thru Lot 44 [41.25]', [(41, None), (42, None), (43, None), (44, None)], {41: '39.80', 44: '41.25'}, False),
     ('Lots 28 thru 30', [(28, None), (29, None), (30, None)], {}, False),
     ('Lot 1', [(1, None)], {}, False),           # repeated lot (same text as element 0, kept as its own kind)
     ('Lots 20(1.10), 21(2.20)', [(20, None), (21, None)], {20: '1.10', 21: '2.20'}, False),
